@@ -24,6 +24,9 @@ COMMON_ASSUMPTIONS = [
     "all spec magnitudes stay below 2^100 for int64 inputs",
     "CBMC 6.11 (goto-cc, goto-instrument --dfcc, symex), cadical, cvc5 1.0.3 (bit-blasting and --solve-bv-as-int=sum), z3 4.8.12 are trusted",
     "termination is proved only where a decreases clause is listed among the obligations",
+    "quick tier: an obligation already discharged for a goal whose complete verification input (emitted C of the functions whose bodies "
+    "the goal verifies, all contract/spec/stub/harness headers, goal configuration, tool versions) is byte-identical is reused from "
+    "/verif/build/cache (counted under reused_from_proof_cache); the thorough tier re-solves everything",
 ]
 
 
@@ -164,6 +167,8 @@ def write_evidence(pid, spec, goals, run, tier, seed, t0, obs, proof_obs, bounde
         goals=functions,
         obligations_by_class=dict(by_class), discharged_by_backend=dict(by_backend),
         solver_seconds=round(run.solver_secs, 1),
+        solved_in_this_run=len([o for o in proof_obs if o.status == 'SUCCESS' and not getattr(o, 'cached', False)]),
+        reused_from_proof_cache=len([o for o in proof_obs if getattr(o, 'cached', False)]),
         spec_arith_checks_not_run=len([o for o in obs if o.status == 'SKIPPED' and o.cls == 'spec_arith']),
         bounded_standins=[dict(goal=g.name, bound=g.bounded,
                                obligations=len([o for o in bounded_obs if o.goal is g]),
